@@ -28,6 +28,31 @@ LEVEL = "model_checking"
 # second layout of the same TLC cases
 CHECK_AXIS_LAST = True
 
+# keys of the mechanisms the generator model predicts (never capped); every other
+# key names one failing case, and at most CAP of those are reported per run
+MECHANISMS = (
+    "split:empty_tuple",
+    "split:empty_dict:N>MAX_ITER*b",
+    "split:empty_list:N>MAX_ITER*b",
+    "lazycall:empty_extra:N>MAX_ITER*b",
+    "merge:axis=-1:nested",
+)
+CAP = 40
+
+
+def _viol(ctx, key, detail):
+    st = ctx.cov["parts"].setdefault("reporting", {"case_keys_reported": 0, "case_keys_suppressed": 0})
+    if key not in MECHANISMS:
+        if key in getattr(ctx, "_c18_seen", set()):
+            return
+        ctx.__dict__.setdefault("_c18_seen", set()).add(key)
+        if st["case_keys_reported"] >= CAP:
+            st["case_keys_suppressed"] += 1
+            return
+        st["case_keys_reported"] += 1
+    ctx.violation(key, detail)
+
+
 INVS = ["TypeOK", "SplitMerge", "BatchCallWhole", "MaskExact", "IndexExact", "GenPrefix", "GenRelation"]
 
 
@@ -149,6 +174,21 @@ def leaves(x):
     if isinstance(x, (list, tuple)):
         return [l for v in x for l in leaves(v)]
     return [x]
+
+
+def take(gen, cap):
+    """at most cap items (a repaired generator may be unbounded on event-less trees)"""
+    return list(itertools.islice(gen, cap))
+
+
+def shifted(x, off):
+    if isinstance(x, dict):
+        return {k: shifted(v, off) for k, v in x.items()}
+    if isinstance(x, list):
+        return [shifted(v, off) for v in x]
+    if isinstance(x, tuple):
+        return tuple(shifted(v, off) for v in x)
+    return x + off
 
 
 def short(o, n=300):
@@ -273,7 +313,7 @@ class Binder:
 
     # -- helpers ---------------------------------------------------------
     def viol(self, key, detail):
-        self.ctx.violation(key, detail)
+        _viol(self.ctx, key, detail)
 
     def classify_split(self, t, n, b, got_len, last=False):
         """key of a split mismatch: the two mechanisms the generator model
@@ -324,7 +364,7 @@ class Binder:
         fn = D.data_split if ci % 2 else D.split_generator
         split_ok = False
         try:
-            real = list(fn(x, b))
+            real = take(fn(x, b), n + self.max_iter + 3)
             got = [proj(p) for p in real]
         except Exception as e:  # noqa: BLE001
             self.viol("split:%s:N=%d:b=%d:raise" % (name, n, b), {"error": repr(e)})
@@ -339,7 +379,7 @@ class Binder:
         gen = None
         if self.has_max_iter:
             try:
-                gen = [proj(p) for p in D.data_generator(x, fun=D._data_split, args=(b,), kwargs={"axis": 0}, MAX_ITER=self.max_iter)]
+                gen = [proj(p) for p in take(D.data_generator(x, fun=D._data_split, args=(b,), kwargs={"axis": 0}, MAX_ITER=self.max_iter), n + self.max_iter + 3)]
             except Exception as e:  # noqa: BLE001
                 self.viol("generator:%s:N=%d:b=%d:raise" % (name, n, b), {"error": repr(e)})
         if gen is not None:
@@ -414,7 +454,7 @@ class Binder:
                 return
             if D.data_shape(L) != n or len(L) != n:
                 self.viol("lazy:shape:%s:N=%d" % (name, n), {"data_shape": D.data_shape(L), "len": len(L)})
-            it = list(D.data_split(L, b))
+            it = take(D.data_split(L, b), n + self.max_iter + 3)
             nb = (n + b - 1) // b
             if not it:
                 if e_tuple and not split_ok:
@@ -430,6 +470,8 @@ class Binder:
             if proj(L.eval()) != want:
                 self.viol("lazy:copy_aliases_extra:%s:N=%d" % (name, n), {})
             if b == 1:
+                L2 = D.LazyCall(lazyf, shifted(x, 100000))  # other events, so that the order of the merge shows
+                L2["k2"] = np.arange(7001, 7001 + n, dtype=np.float64) + 50
                 both = D.data_merge(L, L2)
                 a = proj(both.eval())
                 e2 = proj(D.data_merge(L.eval(), L2.eval()))
@@ -446,7 +488,7 @@ class Binder:
         self.n["axis_last"] += 1
         x = build(d, dtype, last=True)
         try:
-            real = list(D.data_split(x, b, axis=-1))
+            real = take(D.data_split(x, b, axis=-1), n + self.max_iter + 3)
             got = [proj(p, last=True) for p in real]
         except Exception as e:  # noqa: BLE001
             self.viol("split:%s:N=%d:b=%d:axis=-1:raise" % (name, n, b), {"error": repr(e)})
@@ -578,7 +620,7 @@ class Binder:
         if not self.has_max_iter:
             return
         try:
-            gen = list(D.data_generator(x, fun=D._data_split, args=(1,), kwargs={"axis": 0}, MAX_ITER=self.max_iter))
+            gen = take(D.data_generator(x, fun=D._data_split, args=(1,), kwargs={"axis": 0}, MAX_ITER=self.max_iter), self.max_iter + 3)
         except Exception as e:  # noqa: BLE001
             self.ctx.notes.append("model_drift: generator on %s raised %r" % (tstr(t), e))
             self.drift += 1
@@ -622,7 +664,7 @@ def structured_files(ctx, binder, limit):
                 n_ok += 1
                 ctx.count(1, distinct_key=("file", kind, name, n))
                 if got != want:
-                    ctx.violation("save_load:%s:%s:N=%d" % (kind, name, n), {"got": short(got), "expected": short(want)})
+                    _viol(ctx, "save_load:%s:%s:N=%d" % (kind, name, n), {"got": short(got), "expected": short(want)})
                 else:
                     binder.validated += 1
             else:
@@ -639,7 +681,7 @@ def structured_files(ctx, binder, limit):
     D.save_data(fn, x)
     y = D.load_data(fn)
     if proj(y) != proj(x) or not np.array_equal(D.data_index(y, (b, "p")), x[b]["p"]):
-        ctx.violation("save_load:particle_keys", {"got": short(proj(y))})
+        _viol(ctx, "save_load:particle_keys", {"got": short(proj(y))})
     os.remove(fn)
 
 
@@ -692,11 +734,11 @@ def lazy_heavy(ctx, binder, limit):
                 n_done += 1
                 ctx.count(1, distinct_key=("lazy_heavy", src, name, n, b))
                 if ev != want or merged != want or merged2 != want or len(it) != (n + b - 1) // b:
-                    ctx.violation(key, {"eval": short(ev), "merged": short(merged), "expected": short(want), "pieces": len(it)})
+                    _viol(ctx, key, {"eval": short(ev), "merged": short(merged), "expected": short(want), "pieces": len(it)})
                 else:
                     binder.validated += 1
             except Exception as e:  # noqa: BLE001
-                ctx.violation(key + ":raise", {"error": repr(e)[:300]})
+                _viol(ctx, key + ":raise", {"error": repr(e)[:300]})
     ctx.part("lazy_heavy", cases=n_done)
 
 
@@ -753,13 +795,13 @@ def boundary_and_traces(ctx, binder):
                 probes.append((kind, empty, b, n))
     for kind, empty, b, n in probes:
         x = {"a": np.arange(n, dtype=np.float64), "e": type(empty)()}
-        pieces = list(D.data_split(x, b))
+        pieces = take(D.data_split(x, b), 4 * M + 10)
         r = record_split(x, b, pieces, "boundary")
         recs.append(r)
         meta.append(("boundary", kind, b, n, x, pieces))
     # a control without empty container at the same sizes
     x = {"a": np.arange(M + 5, dtype=np.float64), "c": [np.arange(M + 5, dtype=np.float64)]}
-    pieces = list(D.data_split(x, 1))
+    pieces = take(D.data_split(x, 1), 4 * M + 10)
     recs.append(record_split(x, 1, pieces, "control"))
     meta.append(("control", "none", 1, M + 5, x, pieces))
     # (b) calls made by tf_pwa/tests/test_data.py
@@ -797,16 +839,16 @@ def boundary_and_traces(ctx, binder):
         rejected += 1
         nb = v["npieces"]
         if src == "boundary" and len(pieces) == M and nb > M:
-            ctx.violation("split:empty_%s:N>MAX_ITER*b" % kind, {"N": n, "batch": b, "MAX_ITER": M, "pieces_got": len(pieces), "pieces_expected": nb, "events_lost": n - sum(rec["lens"])})
+            _viol(ctx, "split:empty_%s:N>MAX_ITER*b" % kind, {"N": n, "batch": b, "MAX_ITER": M, "pieces_got": len(pieces), "pieces_expected": nb, "events_lost": n - sum(rec["lens"])})
         else:
-            ctx.violation("recorded_split:%s:%s:N=%d:b=%d" % (src, tstr(rec["t"]), n, b), {"pieces_got": len(pieces), "pieces_expected": nb, "lens": rec["lens"][:10]})
+            _viol(ctx, "recorded_split:%s:%s:N=%d:b=%d" % (src, tstr(rec["t"]), n, b), {"pieces_got": len(pieces), "pieces_expected": nb, "lens": rec["lens"][:10]})
     # LazyCall iterates zip(batches of x, batches of extra): extra = {} is an empty dict
     n = M + 1
     L = D.LazyCall(lambda xx: {"k1": xx["a"]}, {"a": np.arange(n, dtype=np.float64)})
-    it = list(D.data_split(L, 1))
+    it = take(D.data_split(L, 1), 4 * M + 10)
     ctx.count(1, distinct_key=("lazy_boundary", n))
     if len(it) != n:
-        ctx.violation("lazycall:empty_extra:N>MAX_ITER*b", {"N": n, "batch": 1, "pieces_got": len(it), "pieces_expected": n})
+        _viol(ctx, "lazycall:empty_extra:N>MAX_ITER*b", {"N": n, "batch": 1, "pieces_got": len(it), "pieces_expected": n})
     ctx.part("recorded_splits", records=len(recs), accepted=accepted, rejected=rejected, from_repo_tests=len(test_recs), pytest=pytest_status)
     ctx.cov["tlc_runs"].append({"run": "DataOps RecPost (trace validation)", "records": len(recs), "wall_s": round(r.wall, 2)})
     return len(test_recs)
@@ -830,7 +872,7 @@ def run_repo_tests(ctx, D):
         out = orig(data, batch_size, axis)
         if isinstance(data, D.LazyCall) or axis != 0:
             return out
-        pieces = list(out)
+        pieces = take(out, 100000)
         calls.append((data, batch_size, pieces))
         return iter(pieces)
 
@@ -928,11 +970,11 @@ def datfile_part(ctx, maxp, maxev, all_formats):
                 ctx.count(1, distinct_key=(key0, fmt))
                 bad = [q for q in range(1, n + 1) if ("p%d" % q) not in ret or not np.array_equal(np.asarray(ret["p%d" % q]), p[q - 1])]
                 if bad or len(ret) != n:
-                    ctx.violation(key0 + ":" + fmt, {"wrong_particles": bad, "got": short({k: np.asarray(v).tolist() for k, v in ret.items()}), "expected": short(p.tolist())})
+                    _viol(ctx, key0 + ":" + fmt, {"wrong_particles": bad, "got": short({k: np.asarray(v).tolist() for k, v in ret.items()}), "expected": short(p.tolist())})
                 else:
                     validated += 1
             except Exception as e:  # noqa: BLE001
-                ctx.violation(key0 + ":" + fmt + ":raise", {"error": repr(e)})
+                _viol(ctx, key0 + ":" + fmt + ":raise", {"error": repr(e)})
             finally:
                 for fn in fnames:
                     os.remove(fn)
@@ -944,7 +986,7 @@ def datfile_part(ctx, maxp, maxev, all_formats):
     np.savetxt(fn, np.arange(20.0).reshape(5, 4))
     try:
         D.load_dat_file(fn, ["a", "b"])
-        ctx.violation("datfile:rows_not_multiple_of_particles:accepted", {})
+        _viol(ctx, "datfile:rows_not_multiple_of_particles:accepted", {})
     except ValueError:
         pass
     os.remove(fn)
@@ -994,7 +1036,7 @@ def writers_part(ctx, cases, quick):
         order = sd.get_dat_order()
         key0 = "writer:n=%d:N=%d:dat_order=%s" % (n, N, "".join(order_names))
         if [str(i) for i in order] != order_names:
-            ctx.violation(key0 + ":get_dat_order", {"got": [str(i) for i in order]})
+            _viol(ctx, key0 + ":get_dat_order", {"got": [str(i) for i in order]})
             continue
         table = np.array([_seq(r) for r in _seq(_seq(c["files"])[0])], dtype=np.float64)
         p = np.array([[_seq(e) for e in _seq(q)] for q in _seq(c["p"])], dtype=np.float64)
@@ -1015,16 +1057,16 @@ def writers_part(ctx, cases, quick):
                     ctx.count(1, distinct_key=(key0, fname, ext))
                     raw = np.loadtxt(fn).reshape((-1, 4)) if ext == ".dat" else np.load(fn).reshape((-1, 4))
                     if not np.array_equal(raw, table):
-                        ctx.violation(key0 + ":savetxt:%s%s" % (fname, ext), {"file": short(raw.tolist()), "expected": short(table.tolist())})
+                        _viol(ctx, key0 + ":savetxt:%s%s" % (fname, ext), {"file": short(raw.tolist()), "expected": short(table.tolist())})
                         continue
                     back = sd.load_p4(fn)
                     bad = [k for k in order_names if not np.array_equal(np.asarray(data_index(back, k)), byname[k])]
                     if bad or len(back) != n:
-                        ctx.violation(key0 + ":load_p4:%s%s" % (fname, ext), {"wrong": bad})
+                        _viol(ctx, key0 + ":load_p4:%s%s" % (fname, ext), {"wrong": bad})
                     else:
                         validated += 1
                 except Exception as e:  # noqa: BLE001
-                    ctx.violation(key0 + ":%s%s:raise" % (fname, ext), {"error": repr(e)})
+                    _viol(ctx, key0 + ":%s%s:raise" % (fname, ext), {"error": repr(e)})
                 finally:
                     if os.path.exists(fn):
                         os.remove(fn)
@@ -1036,12 +1078,12 @@ def writers_part(ctx, cases, quick):
             raw = np.loadtxt(fn).reshape((-1, 4))
             nsave += 1
             if not np.array_equal(raw, table):
-                ctx.violation(key0 + ":CalAngleData.savetxt", {"file": short(raw.tolist()), "expected": short(table.tolist())})
+                _viol(ctx, key0 + ":CalAngleData.savetxt", {"file": short(raw.tolist()), "expected": short(table.tolist())})
             else:
                 validated += 1
             os.remove(fn)
         except Exception as e:  # noqa: BLE001
-            ctx.violation(key0 + ":CalAngleData.savetxt:raise", {"error": repr(e)})
+            _viol(ctx, key0 + ":CalAngleData.savetxt:raise", {"error": repr(e)})
     # full pipeline with physical momenta: file -> load_data -> CalAngleData -> savetxt -> same file
     rng = np.random.RandomState(ctx.seed % (2**32))
     masses = {2: [0.5, 0.3], 3: [0.5, 0.3, 0.2], 4: [0.5, 0.3, 0.2, 0.1]}
@@ -1073,21 +1115,21 @@ def writers_part(ctx, cases, quick):
                 npipe += 1
                 ctx.count(1, distinct_key=key0)
                 if data_shape(data) != N:
-                    ctx.violation(key0 + ":size", {"got": data_shape(data)})
+                    _viol(ctx, key0 + ":size", {"got": data_shape(data)})
                 # without cp transformation of the stored momenta? the preprocessor applies it for charge < 0
                 out = os.path.join(wd, "out.dat")
                 data.savetxt(out, order=[k for k in order_names], cp_trans=True, save_charge=True)
                 back = np.loadtxt(out).reshape((-1, 4))
                 cback = np.loadtxt(os.path.join(wd, "outc.dat"))
                 if not np.allclose(back, rows, rtol=1e-12, atol=1e-12) or not np.array_equal(cback, charge):
-                    ctx.violation(key0 + ":savetxt_inverse", {"max_abs_diff": float(np.max(np.abs(back - rows)))})
+                    _viol(ctx, key0 + ":savetxt_inverse", {"max_abs_diff": float(np.max(np.abs(back - rows)))})
                 else:
                     validated += 1
                 # particle assignment of the loaded momenta (events with charge +1 are stored unchanged)
                 for k in fin:
                     got = np.asarray(data_index(data, ("particle", k, "p")))
                     if not np.array_equal(got[charge > 0], byname[k][charge > 0]):
-                        ctx.violation(key0 + ":assignment:%s" % k, {"got": short(got.tolist()), "expected": short(byname[k].tolist())})
+                        _viol(ctx, key0 + ":assignment:%s" % k, {"got": short(got.tolist()), "expected": short(byname[k].tolist())})
                         break
                 # default order = decay outs
                 data.savetxt(out)
@@ -1096,10 +1138,10 @@ def writers_part(ctx, cases, quick):
                 for j, k in enumerate(outs):
                     got = np.asarray(data_index(data, ("particle", k, "p")))
                     if not np.array_equal(back[:, j], got):
-                        ctx.violation(key0 + ":savetxt_default_order", {"particle": k})
+                        _viol(ctx, key0 + ":savetxt_default_order", {"particle": k})
                         break
             except Exception as e:  # noqa: BLE001
-                ctx.violation(key0 + ":raise", {"error": repr(e)[:300]})
+                _viol(ctx, key0 + ":raise", {"error": repr(e)[:300]})
             finally:
                 for f in os.listdir(wd):
                     os.remove(os.path.join(wd, f))
@@ -1128,7 +1170,7 @@ def root_part(ctx):
             got = back.get("tree0", {})
             ctx.count(1, distinct_key=("root", n))
             if set(got) != set(dic) or any(not np.array_equal(np.asarray(got[k]), dic[k]) for k in dic):
-                ctx.violation("root_io:roundtrip:N=%d" % n, {"got": short({k: np.asarray(v).tolist() for k, v in got.items()})})
+                _viol(ctx, "root_io:roundtrip:N=%d" % n, {"got": short({k: np.asarray(v).tolist() for k, v in got.items()})})
             else:
                 ok += 1
         except Exception as e:  # noqa: BLE001
@@ -1147,7 +1189,7 @@ def replay_counterexample(ctx, binder, trace):
     x = build(d)
     want = plain(last["out"])
     kw = {"MAX_ITER": binder.max_iter} if binder.has_max_iter else {}
-    got = [proj(p) for p in D.data_generator(x, fun=D._data_split, args=(b,), kwargs={"axis": 0}, **kw)]
+    got = [proj(p) for p in take(D.data_generator(x, fun=D._data_split, args=(b,), kwargs={"axis": 0}, **kw), n + binder.max_iter + 3)]
     nb = (n + b - 1) // b
     same = got == [expect(p) for p in want]
     ctx.part("design_level_finding", counterexample_tree=tstr(cs["t"]), N=n, batch=b, spec_pieces=len(want), declarative_pieces=nb, reproduced_on_code=bool(same and len(got) < nb))
